@@ -9,42 +9,69 @@ script means "would block").  What the class does with a raised fault comes from
 source on every run (`Gen/TcpFaults.lean`); none of the theorems below depends on the content of those tables except
 `receives_all`/`wouldblock_is_benign`, which are re-checked against them by `decide`.
 
-`run c ops` is the connection after the call history `ops` (`tx d`, `serviceSends`, `serviceReceives`, `service`);
+`run c ops` is the connection after the call history `ops` (`tx d`, `serviceSends`, `serviceReceives`, `service`, and
+`rst`: the peer resets the connection — queued bytes are still delivered but `getpeername()` fails from then on);
 `kacc` / `kdel` are ghost fields: the bytes the kernel has accepted from / delivered to the object — what the peer can
-ever have seen, and what actually arrived.  All statements are for every history, payload sequence, script and class.
+ever have seen, and what actually arrived.  All statements are for every history, payload sequence, script and class, under the guard `wl = false ∨ PeerSafe kind`:
+no wire log attached, or a class whose wire-log call does not ask the socket for the peer address (flags regenerated from
+the code by probing; `peer_safe_kinds` lists the classes for which the guard is discharged).  FULL statement: no guard.
+It is FALSE for a class whose `send`/`receive` passes `who=self.cs.getpeername()` to the wire log: on a reset connection
+the call raises after the kernel already took / delivered the bytes (`stream_fails_if_wirelog_needs_peer`) — that is
+`RemoterTls` at the unchanged tree (known finding C09-K2, fix proposed on fix/tcp), and exactly what the guard excludes.
 -/
 namespace Hio.Tcp
 
 /-- C09.1 what the kernel accepted followed by what is still queued is exactly everything handed to `tx`, in order:
 nothing lost, nothing duplicated, nothing reordered — whatever partial sends, would-blocks and faults happened. -/
-theorem stream_prefix (kind : Kind) (wl : Bool) (sends : List SResp) (recvs : List RResp) (ops : List Op) :
+theorem stream_prefix (kind : Kind) (wl : Bool) (sends : List SResp) (recvs : List RResp) (ops : List Op)
+    (hs : wl = false ∨ PeerSafe kind) :
     (run (init kind wl sends recvs) ops).kacc ++ (run (init kind wl sends recvs) ops).txbs = payload ops := by
-  simpa using (run_inv ops (init_inv kind wl sends recvs)).tx
+  simpa using (run_inv ops (init_inv kind wl sends recvs hs)).tx
 
 /-- C09.1' the bytes the peer can have received are a prefix of everything transmitted so far -/
-theorem peer_has_prefix (kind : Kind) (wl : Bool) (sends : List SResp) (recvs : List RResp) (ops : List Op) :
+theorem peer_has_prefix (kind : Kind) (wl : Bool) (sends : List SResp) (recvs : List RResp) (ops : List Op)
+    (hs : wl = false ∨ PeerSafe kind) :
     (run (init kind wl sends recvs) ops).kacc <+: payload ops :=
-  ⟨_, stream_prefix kind wl sends recvs ops⟩
+  ⟨_, stream_prefix kind wl sends recvs ops hs⟩
 
 /-- C09.2 the receive buffer holds exactly the bytes `recv` delivered, in order (short reads, EOF, faults included) -/
-theorem rx_exact (kind : Kind) (wl : Bool) (sends : List SResp) (recvs : List RResp) (ops : List Op) :
+theorem rx_exact (kind : Kind) (wl : Bool) (sends : List SResp) (recvs : List RResp) (ops : List Op)
+    (hs : wl = false ∨ PeerSafe kind) :
     (run (init kind wl sends recvs) ops).rxbs = (run (init kind wl sends recvs) ops).kdel :=
-  (run_inv ops (init_inv kind wl sends recvs)).rx
+  (run_inv ops (init_inv kind wl sends recvs hs)).rx
 
 /-- C09.3 an attached wire log records exactly the bytes actually sent and actually received -/
-theorem wire_log_exact (kind : Kind) (sends : List SResp) (recvs : List RResp) (ops : List Op) :
+theorem wire_log_exact (kind : Kind) (sends : List SResp) (recvs : List RResp) (ops : List Op) (hs : PeerSafe kind) :
     (run (init kind true sends recvs) ops).wireTx = (run (init kind true sends recvs) ops).kacc ∧
     (run (init kind true sends recvs) ops).wireRx = (run (init kind true sends recvs) ops).kdel := by
-  have h := run_inv ops (init_inv kind true sends recvs)
+  have h := run_inv ops (init_inv kind true sends recvs (Or.inr hs))
   have hw : (run (init kind true sends recvs) ops).wl = true := by rw [run_wl]; rfl
   exact ⟨by simpa [hw] using h.wtx, by simpa [hw] using h.wrx⟩
 
 /-- without a wire log nothing is recorded -/
 theorem wire_log_absent (kind : Kind) (sends : List SResp) (recvs : List RResp) (ops : List Op) :
     (run (init kind false sends recvs) ops).wireTx = [] ∧ (run (init kind false sends recvs) ops).wireRx = [] := by
-  have h := run_inv ops (init_inv kind false sends recvs)
+  have h := run_inv ops (init_inv kind false sends recvs (Or.inl rfl))
   have hw : (run (init kind false sends recvs) ops).wl = false := by rw [run_wl]; rfl
   exact ⟨by simpa [hw] using h.wtx, by simpa [hw] using h.wrx⟩
+
+/-- the guard is discharged for `Client`, `ClientTls` and `Remoter` (re-checked against the flags probed from the code):
+for these classes every theorem of this file holds with a wire log attached and the peer resetting at any moment -/
+theorem peer_safe_kinds : PeerSafe .client ∧ PeerSafe .clientTls ∧ PeerSafe .remoter := by
+  unfold PeerSafe; decide
+
+/-- the excluded situation really fails: a class whose `receive` wire-logs `who=getpeername()` loses bytes the kernel
+delivered once the peer has reset, and one whose `send` does so re-sends bytes the kernel already took -/
+theorem stream_fails_if_wirelog_needs_peer (k : Kind) :
+    (needsPeerRecv k = true →
+      (run (init k true [] [.data [1]]) [.rst, .sr]).rxbs ≠ (run (init k true [] [.data [1]]) [.rst, .sr]).kdel) ∧
+    (needsPeerSend k = true →
+      (run (init k true [.acc 1, .acc 1] []) [.tx [7], .rst, .ss, .ss]).kacc = [7, 7]) := by
+  constructor
+  · intro h
+    cases k <;> simp [run, step, init, serviceReceives, recvLoop, Conn.guard, Conn.wlFailsRx, h]
+  · intro h
+    cases k <;> simp [run, step, init, serviceSends, send, finishSend, Conn.guard, Conn.wlFailsTx, h]
 
 /-- the same invariants hold from ANY state that satisfies them (e.g. mid-history), not only from a fresh connection -/
 theorem stream_prefix_from (c : Conn) (p : Bytes) (h : Inv c p) (ops : List Op) : Inv (run c ops) (p ++ payload ops) :=
@@ -52,12 +79,13 @@ theorem stream_prefix_from (c : Conn) (p : Bytes) (h : Inv c p) (ops : List Op) 
 
 /-- C09.4 (liveness) on a healthy connection — not cut off, and every `send` on a non-empty buffer takes at least one
 byte — `|txbs|` (or any larger number of) service calls empty the buffer, and all of it reached the kernel, in order. -/
-theorem drains (c : Conn) (n : Nat) (hn : c.txbs.length ≤ n) (hc : c.cutoff = false) (hg : c.guard = true)
+theorem drains (c : Conn) (n : Nat) (hsafe : Safe c) (hn : c.txbs.length ≤ n) (hc : c.cutoff = false) (hg : c.guard = true)
     (hs : AllAccept c.sends) (hl : n ≤ c.sends.length) :
     (sendN n c).txbs = [] ∧ (sendN n c).kacc = c.kacc ++ c.txbs :=
-  ⟨(drains_aux n c hn hc hg hs hl).1, (drains_aux n c hn hc hg hs hl).2.1⟩
+  ⟨(drains_aux n c hsafe hn hc hg hs hl).1, (drains_aux n c hsafe hn hc hg hs hl).2.1⟩
 
 /-- non-vacuity of `drains`: a remoter with 3 queued bytes and a 1-byte-dribbling kernel -/
+example : Safe { kind := .remoter, txbs := [1, 2, 3], sends := [.acc 1, .acc 1, .acc 1] } := Or.inl rfl
 example : (sendN 3 { kind := .remoter, txbs := [1, 2, 3], sends := [.acc 1, .acc 1, .acc 1] }).txbs = [] ∧
     (sendN 3 { kind := .remoter, txbs := [1, 2, 3], sends := [.acc 1, .acc 1, .acc 1] }).kacc = [1, 2, 3] := by
   decide
@@ -65,12 +93,13 @@ example : (sendN 3 { kind := .remoter, txbs := [1, 2, 3], sends := [.acc 1, .acc
 /-- C09.4' a healthy history delivers all of it: after any history from a fresh connection, if the connection is not
 cut off and the remaining script only accepts, `|txbs|` further service calls leave every transmitted byte with the kernel -/
 theorem drains_delivers_all (kind : Kind) (wl : Bool) (sends : List SResp) (recvs : List RResp) (ops : List Op)
+    (hsafe : wl = false ∨ PeerSafe kind)
     (hc : (run (init kind wl sends recvs) ops).cutoff = false) (hg : (run (init kind wl sends recvs) ops).guard = true)
     (hs : AllAccept (run (init kind wl sends recvs) ops).sends)
     (hl : (run (init kind wl sends recvs) ops).txbs.length ≤ (run (init kind wl sends recvs) ops).sends.length) :
     (sendN (run (init kind wl sends recvs) ops).txbs.length (run (init kind wl sends recvs) ops)).kacc = payload ops := by
-  rw [(drains _ _ (Nat.le_refl _) hc hg hs hl).2]
-  exact stream_prefix kind wl sends recvs ops
+  rw [(drains _ _ (run_inv ops (init_inv kind wl sends recvs hsafe)).safe (Nat.le_refl _) hc hg hs hl).2]
+  exact stream_prefix kind wl sends recvs ops hsafe
 
 /-- the would-block signal of each class (EAGAIN; SSLWantRead for TLS) is classified as "try again", at both sites
 (re-checked against the regenerated tables) -/
@@ -79,13 +108,13 @@ theorem wouldblock_is_benign (k : Kind) :
   cases k <;> decide
 
 /-- C09.5 one `serviceReceives` on a healthy connection takes everything the kernel has (any number of short reads) -/
-theorem receives_all (c : Conn) (ds : List Bytes) (hc : c.cutoff = false) (hg : c.guard = true)
+theorem receives_all (c : Conn) (ds : List Bytes) (hsafe : Safe c) (hc : c.cutoff = false) (hg : c.guard = true)
     (hr : c.recvs = ds.map RResp.data) (hd : ∀ d ∈ ds, d ≠ []) :
     (serviceReceives c).1.rxbs = c.rxbs ++ ds.flatten ∧ (serviceReceives c).2 = none ∧
       (serviceReceives c).1.cutoff = false := by
   unfold serviceReceives
   rw [hg, hr]
-  exact recvLoop_all ds c hc hd (wouldblock_is_benign c.kind).1
+  exact recvLoop_all ds c hsafe hc hd (wouldblock_is_benign c.kind).1
 
 example : (serviceReceives { kind := .clientTls, recvs := [.data [1], .data [2, 3]] }).1.rxbs = [1, 2, 3] := by decide
 
